@@ -1,7 +1,7 @@
 \* model check of the ownership mechanism against the property (all subjects, bodies of <= 2 statements)
 SPECIFICATION Spec
 CONSTANTS
-  Types = {"Q", "I", "F", "AQ", "AI", "TQ", "SQ", "SA", "TA"}
+  Types = {"Q", "I", "F", "O", "AQ", "AI", "TQ", "SQ", "SA", "TA"}
   Origins = {"owned", "borrowed", "local"}
   MutOps = {"append", "extend", "insert", "pop", "popuse", "remove", "clear", "sort", "reverse", "setitem", "setalias", "delitem", "iadd", "imul1", "imul2", "reinit"}
   MaxOps = 2
